@@ -5,7 +5,7 @@ from gen_counter import *  # noqa
 WORDS = ["int", "x", "y1", "foo", "bar", "return", "for", "r", "var", "let", "fn", "print", "0", "42", "=", "+", ";", "(", ")", "{", "}", ",",
          ".", ":", "<", ">", "!", "&", "|", "%", "^", "~", "?", "@", "été", "中", "\U0001f600", "a_b", "r2", "err"]
 WS_IN = [" ", " ", " ", "\t", "  "]
-INDENT = ["", "", "  ", "\t", "    ", " "]
+INDENT = ["", "", "  ", "\t", "    ", " ", "\u00a0", "\u3000 ", "\x0b", "\u2003"]
 HOSTILE = ['"', "'", '"""', "'''", "\\", '\\"', "`", "r\"", "r#\"", "\"#", "/*", "*/", "//", "#", "--", "--[[", "--[==[", "]]", "]==]", "<!--", "-->",
            "=begin", "=end", "///", "/*/", "*/*", "sloc-guard:ignore-next 2", "sloc-guard:ignore-file", "sloc-guard:ignore-start", "sloc-guard:ignore-end",
            "it's", "don't", "\"quoted\"", "'c'", "src/*.rs", "**/x", "http://a.b/c", "é", "\U0001f600", " ", " ", "x", "1"]
@@ -121,7 +121,7 @@ class Gen:
 
     # -- pieces: each returns (lines, truth, tags)
     def p_blank(self):
-        return [self.rng.choice(["", " ", "\t", "  \t"])], ["B"], set()
+        return [self.rng.choice(["", " ", "\t", "  \t", "\u00a0", "\u3000", " \u2003 ", "\x0b", "\u0085"])], ["B"], set()
 
     def p_code(self):
         t, tags = self.code_line()
@@ -129,7 +129,7 @@ class Gen:
 
     def comment_body(self):
         for _ in range(30):
-            b = self.hostile_text()
+            b = directed_comment_body(self.rng, self.sy) if self.rng.random() < 0.4 else self.hostile_text()
             if "sloc-guard:ignore" in b:
                 continue
             return b
@@ -312,6 +312,20 @@ class Gen:
                 form = rng.choice(["ignore-next %d" % k, "ignore-next  %d" % k, "ignore-next %d trailing words" % k, "ignore-next +%d" % k])
                 lines += [self.directive(form)] + body_l
                 truth += ["M"] + ["I"] * k
+            elif r < 0.13 and self.f["single"]:
+                # ignore-next covering only the FIRST k lines of the following pieces: the rest keep their class,
+                # so the block state must be tracked through the ignored lines (nesting included)
+                body_l, body_t = [], []
+                for _ in range(rng.randint(1, 2)):
+                    l, t, g = rng.choice([self.p_block, self.p_nested, self.p_lua, self.p_linestart, self.p_code])()
+                    if g:
+                        continue
+                    body_l += l
+                    body_t += t
+                if body_l:
+                    k = rng.randint(0, len(body_l))
+                    lines += [self.directive("ignore-next %d" % k)] + body_l
+                    truth += ["M"] + ["I"] * k + body_t[k:]
             elif r < 0.16 and self.f["single"]:
                 body_l = []
                 for _ in range(rng.randint(0, 3)):
